@@ -47,6 +47,22 @@ def _minmax(t, which):
     return None
 
 
+def _sum_linear(t):
+    """Linear form of a numerator with np.sum distributed over +/-: {atom id: (coef, per-frame atom)}."""
+    from .common import linear_form
+
+    out = {}
+    for c, x in linear_form(t).values():
+        if x.op == "call" and call_name(x) == "np.sum" and len(x.a[1]) == 1 and not x.a[2]:
+            for c2, y in linear_form(x.a[1][0]).values():
+                cur = out.get(y.id, (0.0, y))
+                out[y.id] = (cur[0] + c * c2, y)
+        else:
+            cur = out.get(("raw", x.id), (0.0, tm.mk("notsum", x)))
+            out[("raw", x.id)] = (cur[0] + c, tm.mk("notsum", x))
+    return {k: v for k, v in out.items() if abs(v[0]) > 1e-12}
+
+
 def rule_ident(ctx):
     R = "C18.IDENT"
     f = ctx.program.func("multipitch.compute_err_score", R)
@@ -56,30 +72,41 @@ def rule_ident(ctx):
     comps = main[0].term.a
     nr, ne, tp = tm.param("n_ref"), tm.param("n_est"), tm.param("true_positives")
     dens = []
-    nums = []
+    forms = []
     for c in comps:
-        if c.op == "bin" and c.a[0] == "/" and c.a[1].op == "call" and call_name(c.a[1]) == "np.sum":
-            nums.append(c.a[1].a[1][0])
+        if c.op == "bin" and c.a[0] == "/":
             dens.append(c.a[2])
+            forms.append(_sum_linear(c.a[1]))
         else:
-            nums.append(None)
             dens.append(None)
-    need(all(n is not None for n in nums), R, "error scores are not sum(numerator) / denominator")
+            forms.append(None)
+    need(all(d is not None for d in dens), R, "error scores are not ratios")
     common = all(d is dens[0] for d in dens) and dens[0].op == "call" and call_name(dens[0]) == "np.sum" and dens[0].a[1][0] is nr
     yield ob(R, f, "multipitch.compute_err_score:common-denominator", common, "all four error scores are normalised by sum(n_ref)")
 
-    def min_minus_tp(n, which):
-        if n.op == "bin" and n.a[0] == "-" and n.a[2] is tp:
-            mm = _minmax(n.a[1], which)
-            return mm == {nr, ne}
-        return False
+    def is_mm_minus_tp(form, which):
+        # sum(minmax(R, E)) - sum(T)
+        if form is None or len(form) != 2:
+            return False
+        got_tp = got_mm = False
+        for c, x in form.values():
+            if x is tp and c == -1.0:
+                got_tp = True
+            elif c == 1.0 and _minmax(x, which) == {nr, ne}:
+                got_mm = True
+        return got_tp and got_mm
 
-    yield ob(R, f, "multipitch.compute_err_score:substitution", min_minus_tp(nums[0], "min"), "substitution numerator is min(n_ref, n_est) - true_positives")
-    cm = _clip_pos(nums[1])
-    yield ob(R, f, "multipitch.compute_err_score:miss", cm is not None and cm[0] is nr and cm[1] is ne, "miss numerator is (n_ref - n_est) clipped at 0")
-    cf = _clip_pos(nums[2])
-    yield ob(R, f, "multipitch.compute_err_score:false-alarm", cf is not None and cf[0] is ne and cf[1] is nr, "false-alarm numerator is (n_est - n_ref) clipped at 0")
-    yield ob(R, f, "multipitch.compute_err_score:total", min_minus_tp(nums[3], "max"), "total numerator is max(n_ref, n_est) - true_positives; with the three above, total = sub + miss + fa by max = min + (a-b)^+ + (b-a)^+")
+    def is_clip(form, a, b):
+        if form is None or len(form) != 1:
+            return False
+        (c, x), = form.values()
+        cp = _clip_pos(x)
+        return c == 1.0 and cp is not None and cp[0] is a and cp[1] is b
+
+    yield ob(R, f, "multipitch.compute_err_score:substitution", is_mm_minus_tp(forms[0], "min"), "substitution numerator is sum over frames of min(n_ref, n_est) - true_positives")
+    yield ob(R, f, "multipitch.compute_err_score:miss", is_clip(forms[1], nr, ne), "miss numerator is the per-frame (n_ref - n_est) clipped at 0")
+    yield ob(R, f, "multipitch.compute_err_score:false-alarm", is_clip(forms[2], ne, nr), "false-alarm numerator is the per-frame (n_est - n_ref) clipped at 0")
+    yield ob(R, f, "multipitch.compute_err_score:total", is_mm_minus_tp(forms[3], "max"), "total numerator is sum over frames of max(n_ref, n_est) - true_positives; with the three above, total = sub + miss + fa by max = min + (a-b)^+ + (b-a)^+ frame by frame")
     # zero special case returns four zeros
     z = [r for r in s.returns if r.term.op == "tuple" and all(is_lit(x) and lit(x) == 0 for x in r.term.a)]
     yield ob(R, f, "multipitch.compute_err_score:empty-reference", len(z) == 1 and len(z[0].term.a) == 4, "an all-empty reference returns four zeros")
@@ -209,7 +236,26 @@ def rule_resample(ctx):
     yield ob(R, g, "multipitch.metrics:resample-call", good, "the estimate is resampled onto the reference times (est_time, est_freqs, ref_time) when the time bases differ")
 
 
+def rule_samewindow(ctx):
+    """Shared with C05/C07: raw and chroma matching use the same closed window predicate, so the chroma count cannot fall below the raw count at a tie."""
+    from . import c05, c07
+
+    for o in c05.rule_edgepred(ctx):
+        if o.construct.startswith("util.match_events"):
+            o.rule = "C18.SAMEWINDOW"
+            yield o
+    for o in c05.rule_windowsides(ctx):
+        if o.rule == "C05.WINDOWSIDES":
+            o.rule = "C18.SAMEWINDOW"
+            yield o
+    for o in c07.rule_chromatwin(ctx):
+        if o.construct.startswith("multipitch."):
+            o.rule = "C18.SAMEWINDOW"
+            yield o
+
+
 RULES = [
+    ("C18.SAMEWINDOW", 8, rule_samewindow),
     ("C18.IDENT", 6, rule_ident),
     ("C18.ACCFORM", 3, rule_accform),
     ("C18.TWINARGS", 5, rule_twinargs),
